@@ -206,3 +206,123 @@ func init() {
 			return obs
 		}})
 }
+
+// SEAL.evaluated-copies — C09 / C11 ("a quoted literal of the program is never
+// changed by running the program": the in-place builtins copy a literal before
+// they write).  That copy-on-write keys off the seal the reader puts on every
+// parsed node — and LVal.Copy CLEARS the seal on every node it creates.  Code
+// that evaluates a COPY of a parsed tree as program text (a cached loader
+// running its expressions once per call) therefore evaluates literals that look
+// like ordinary mutable lists, and stable-sort rewrites them in place.
+func init() {
+	register(&Rule{ID: "SEAL.evaluated-copies", Floor: 1,
+		Doc: "wherever the interpreter hands the evaluator a tree it just obtained from LVal.Copy (Eval(x.Copy()), or a local defined by x.Copy() and then evaluated), SealAST is called on that copy before the evaluation: a copied program is sealed like every tree a reader produces, so copy-on-write of literals works in it",
+		Run: func(c *Ctx) []Obligation {
+			const rid = "SEAL.evaluated-copies"
+			cp := c.LookupMethod("lisp.LVal.Copy")
+			seal := c.LookupMethod("lisp.LVal.SealAST")
+			if cp == nil || seal == nil {
+				return []Obligation{anchorMissing(rid, "LVal.Copy / LVal.SealAST")}
+			}
+			evalLike := c.evalLikeSet()
+			var obs []Obligation
+			for _, u := range c.Funcs(func(p string) bool { return rel(p) == "lisp" }) {
+				if u.Decl == nil || u.Decl.Body == nil {
+					continue
+				}
+				info := u.Pkg.TypesInfo
+				ord := &ordinal{}
+				isCopyCall := func(e ast.Expr) bool {
+					ce, ok := ast.Unparen(e).(*ast.CallExpr)
+					return ok && originOf(Callee(info, ce)) == cp
+				}
+				for _, bu := range bodiesOf(u.Decl) {
+					var root ast.Node = u.Decl.Body
+					if bu.Lit != nil {
+						root = bu.Lit.Body
+					}
+					var fc *FCFG
+					ast.Inspect(root, func(n ast.Node) bool {
+						if fl, ok := n.(*ast.FuncLit); ok && fl != bu.Lit {
+							return false
+						}
+						ce, ok := n.(*ast.CallExpr)
+						if !ok {
+							return true
+						}
+						f := originOf(Callee(info, ce))
+						if f == nil || !evalLike[f] {
+							return true
+						}
+						for _, a := range ce.Args {
+							if tv, ok := info.Types[a]; !ok || !isLValPtr(c, tv.Type) {
+								continue
+							}
+							construct := ""
+							sealed := false
+							switch {
+							case isCopyCall(a):
+								construct = ord.next("evaluation of " + exprShape(info, a))
+							default:
+								o := identObj(info, a)
+								if o == nil {
+									continue
+								}
+								// a local whose definitions are all x.Copy()
+								ndef, ncopy := 0, 0
+								var def *ast.AssignStmt
+								ast.Inspect(root, func(m ast.Node) bool {
+									if as, ok := m.(*ast.AssignStmt); ok && len(as.Lhs) == len(as.Rhs) {
+										for i, l := range as.Lhs {
+											if identObj(info, l) == o {
+												ndef++
+												if isCopyCall(as.Rhs[i]) {
+													ncopy++
+													def = as
+												}
+											}
+										}
+									}
+									return true
+								})
+								if ndef == 0 || ncopy != ndef {
+									continue
+								}
+								construct = ord.next("evaluation of a copied tree")
+								// SealAST on the local dominates the evaluation
+								if fc == nil {
+									fc = c.cfgOf(u, bu.Lit)
+								}
+								eloc, ok1 := fc.Locate(ce)
+								for _, b := range fc.G.Blocks {
+									if !fc.Live(b) {
+										continue
+									}
+									for i, nd := range b.Nodes {
+										for _, sc := range callsIn(nd, false) {
+											if originOf(Callee(info, sc)) != seal {
+												continue
+											}
+											if se, ok := ast.Unparen(sc.Fun).(*ast.SelectorExpr); ok && identObj(info, se.X) == o && ok1 && fc.Dominates(Loc{b, i}, eloc) && def != nil {
+												sealed = true
+											}
+										}
+									}
+								}
+							}
+							if construct == "" {
+								continue
+							}
+							if sealed {
+								obs = append(obs, mkOb(c, rid, u, construct, ce, Proved, "the copy is sealed before it is evaluated", true))
+							} else {
+								obs = append(obs, mkOb(c, rid, u, construct, ce, Undecided, "a tree obtained from LVal.Copy is evaluated without having been sealed: Copy clears the seal, and the copy-on-write of stable-sort / append / slice keys off it, so a quoted literal in the evaluated code is rewritten in place (and, if the code defines functions, stays rewritten)", true))
+							}
+						}
+						return true
+					})
+				}
+			}
+			return obs
+		}})
+}
